@@ -102,6 +102,20 @@ func randCred(r *Rng, serialized bool) *ACred {
 			parts = append(parts, slots[perm[i]]+"="+c.Fields[r.Intn(len(c.Fields))].Name)
 		}
 		c.SerAttr = "iden3:v1:" + strings.Join(parts, "&")
+		if r.Chance(12) && len(parts) > 1 && len(c.Fields) > 1 {
+			// the attribute names a field this credential does not have: building the claim fails - after other slots may
+			// have been filled already. What was prepared for the failed build must not reach the next one
+			gone := strings.SplitN(parts[len(parts)-1], "=", 2)[1]
+			var kept []CField
+			for _, f := range c.Fields {
+				if f.Name != gone {
+					kept = append(kept, f)
+				}
+			}
+			if len(kept) > 0 {
+				c.Fields = kept
+			}
+		}
 	}
 	if r.Chance(70) {
 		c.ID = fmt.Sprintf("urn:uuid:%08x-cred", r.Intn(1<<30))
